@@ -75,6 +75,25 @@ Lemma sr_events_exps s x cid key op :
   = map e_exp (kr_events (kstep (mkCtx (x_now x) (hlc_now (s_high s) (x_clock x)) (x_maxdoc x)) op (get_doc s (cid, key)))).
 Proof. unfold kv_on; cbv zeta; cbn [sr_events]. rewrite map_map. reflexivity. Qed.
 
+(* a removal leaves no expiry behind: whatever covered the documents before covers them afterwards *)
+Lemma kv_on_delete_covered s n x cid k : covered s n -> covered (sr_store (kv_on s x cid k KDelete)) n.
+Proof.
+  intros Hc d Hd. unfold kv_on in Hd; cbv zeta in Hd; cbn [sr_store s_docs] in Hd.
+  destruct (get_doc s (cid, k)) as [r0|]; cbn in Hd.
+  - apply In_aset in Hd. destruct Hd as [->|Hd]; [left; reflexivity | apply Hc; exact Hd].
+  - apply In_aremove in Hd. apply Hc; exact Hd.
+Qed.
+
+Lemma expire_keys_covered n x cid keys : forall s acc, covered s n -> covered (fst (expire_keys s x cid keys acc)) n.
+Proof. induction keys as [|k r IH]; intros s acc Hc; cbn [expire_keys]; [exact Hc|]. apply IH. apply kv_on_delete_covered. exact Hc. Qed.
+
+Lemma expire_colls_covered n x cids : forall s acc, covered s n -> covered (fst (expire_colls s x cids acc)) n.
+Proof.
+  induction cids as [|cid r IH]; intros s acc Hc; cbn [expire_colls]; [exact Hc|].
+  pose proof (expire_keys_covered n x cid (due_keys s cid (x_now x)) s acc Hc) as H.
+  destruct (expire_keys s x cid (due_keys s cid (x_now x)) acc) as [s' acc']. apply IH. exact H.
+Qed.
+
 (* the arming invariant is kept by every step, whatever the arguments, clocks and times *)
 Theorem cover_step s next x o : wf_sop o -> store_ok s -> covered s next ->
   covered (sr_store (sstep s x o)) (next_after next s o (sstep s x o)).
@@ -118,6 +137,16 @@ Proof.
   - destruct (coll_id s coll); exact Hcov.
   - destruct (coll_id s coll); exact Hcov.
   - exact Hcov.
+  - (* the sweep as far as wc: what it removes has no expiry any more, the rest is as it was *)
+    destruct (coll_id s wc); [|exact Hcov].
+    pose proof (expire_colls_covered next x (ids_before (s_colls s) wc) s [] Hcov) as H.
+    destruct (expire_colls s x (ids_before (s_colls s) wc) []) as [s' evs]. exact H.
+  - (* the rest of it: the timer is armed again from the earliest expiry there is, and the requests that
+       waited for the sweep can only make it earlier *)
+    destruct (coll_id s wc) as [cid|]; [|exact Hcov].
+    destruct (expire_keys_chk s x cid keys []) as [s1 evs1].
+    destruct (expire_colls s1 x (ids_after (s_colls s) wc) evs1) as [s2 evs2]. cbn [sr_resp resp_is_err sr_store].
+    intros d Hd. apply fold_sched_keep. exact (min_exp_covers s2 d Hd).
 Qed.
 
 Fixpoint next_final (s : store) (next : N) (steps : list (sctx * sop)) : store * N :=
